@@ -4,7 +4,7 @@
      small d    payload shorter than 2^31 bytes    ps_ok ps    per-sector progress is 0 or >= 16 (header atomic)
      old_ok F   the old file is absent/empty or has at least the 16 header bytes
      0 < now    the clock at load time is positive *)
-From CppcmsV Require Import Base.Tac Base.Sweep C18.Defs C18.Proofs C18.Crash C18.History C18.Link gen.Gen_crc.
+From CppcmsV Require Import Base.Tac Base.Sweep C18.Defs C18.Proofs C18.Crash C18.History C18.Sid C18.Link gen.Gen_crc.
 Local Open Scope N_scope.
 
 (* ---- 1. crash safety: every crash state of every save over every old file ----
@@ -30,6 +30,19 @@ Example C18_crash_safe_nonvacuous :
 Proof.
   split; [exact witness_hyps|]. repeat (split; [vm_compute; reflexivity|]). exact witness_is_collision.
 Qed.
+
+(* the family named in the property text: p bytes of the write stream (0, 16 = header call, byte prefix of the data call,
+   total = both calls) x any subset of sectors having reached the disk *)
+Theorem C18_crash_safe_property_family : forall now F t d p mask,
+  s64_ok t -> bytes_ok d -> small d -> p = 0 \/ 16 <= p -> old_ok F -> (0 < now)%Z ->
+  let res := read_from_file now (crash_file F (new_image t d) (uniform_ps p mask)) in
+  res = None \/ res = Some (t, d) \/ res = read_from_file now F \/ collision now F t d res.
+Proof. exact crash_safe_family. Qed.
+Print Assumptions C18_crash_safe_property_family.
+
+Theorem C18_crash_nothing_written : forall F new, crash_file F new [] = F.
+Proof. exact crash_none_is_old. Qed.
+Print Assumptions C18_crash_nothing_written.
 
 (* ---- 2. the unconditional statement is false: CRC-32 collision witness (KNOWN FINDING) ---- *)
 Theorem C18_crash_collision_witness :
@@ -148,6 +161,28 @@ Example C18_gc_nonvacuous :
   lookup nmX (gc 100 ex_dir) = Some [1; 2; 3] /\
   fst (load 100 nmA ex_dir) = Some (5000%Z, w_old) /\ fst (load 100 nmB ex_dir) = None.
 Proof. repeat split; try (vm_compute; reflexivity). vm_compute. discriminate. Qed.
+
+(* ---- 6b. session_sid in front of the storage ---- *)
+Theorem C18_valid_sid_name : forall cookie id, valid_sid cookie = Some id ->
+  cookie = 73 :: id /\ valid_name id = true /\ length id = 32%nat.
+Proof. exact valid_sid_name. Qed.
+Print Assumptions C18_valid_sid_name.
+
+Theorem C18_sid_load_eq : forall now cookie d,
+  sid_load now cookie d = match valid_sid cookie with None => (None, d) | Some id => load now id d end.
+Proof. exact sid_load_eq. Qed.
+Print Assumptions C18_sid_load_eq.
+
+Theorem C18_sid_load_spec : forall now cookie d r d', sid_load now cookie d = (Some r, d') ->
+  exists id f, valid_sid cookie = Some id /\ valid_name id = true /\ lookup id d = Some f /\
+               read_from_file now f = Some r /\ d' = d.
+Proof. exact sid_load_spec. Qed.
+Print Assumptions C18_sid_load_spec.
+
+Example C18_sid_nonvacuous :
+  valid_sid (73 :: nmA) = Some nmA /\ valid_sid (73 :: nmB) = None /\ valid_sid nmA = None /\
+  fst (sid_load 100 (73 :: nmA) ex_dir) = Some (5000%Z, w_old) /\ fst (sid_load 5001 (73 :: nmA) ex_dir) = None.
+Proof. repeat split; vm_compute; reflexivity. Qed.
 
 (* ---- 7. tie: the CRC table found in private/crc32.h is the table of the bit model, and the
    byte-at-a-time loop of Crc32_ComputeBuf over it computes the model's crc32 ---- *)
